@@ -237,7 +237,8 @@ ADDENDA = {
  'C14': IO + " Stream `keyconv`: `crd info key conv` through the binary, commands of up to 100,000 (131,000) letters incl. 65,535..65,537, every third case via -o onto an existing file.",
  'C15': " Stream `cdescribe`: `crd info chord describe` through the binary with user attributes/chords (compound intervals before and after simple ones of the "
         "same class, repeated intervals, attribute files also written without quotes), each interval compared with the model and with `info attr describe` alone.",
- 'C16': " Fixed families: user chords whose long name is another chord's symbol (or whose symbol is another chord's long name), alone, with a child, defined after the child.",
+ 'C16': " last_definition_wins / user_takes_over / builtin_name_untouched: in every accepted dictionary the chord found under a name is the last entry of "
+        "(built-ins, then the user's chords) whose display symbol or long name is that name. Fixed families: user chords whose long name is another chord's symbol (or whose symbol is another chord's long name), alone, with a child, defined after the child.",
 }
 
 def main():
